@@ -82,18 +82,27 @@ class InterpolatedValue:
         self.report = report
 
 
+def _display(value, converter=str):
+    """ The text of a value for a message. Python refuses to print an int beyond its digit
+    limit (the factorial of a few thousand), which must not stop the assertion itself. """
+    try:
+        return converter(value)
+    except ValueError:
+        return f"<{type(unwrap_value(value)).__name__} too large to display>"
+
+
 class ExactValue(InterpolatedValue):
     """ Wrapper around literal values to produce them unmodified. """
 
     def __str__(self):
-        return " "+str(self.value)
+        return " "+_display(self.value)
 
 
 class SandboxedValue(InterpolatedValue):
     """ Wrapper around sandboxed values to preformat their text. """
 
     def __str__(self):
-        return ":\n"+self.report.format.python_value(repr(self.value))
+        return ":\n"+self.report.format.python_value(_display(self.value, repr))
 
 
 class AssertionBreak(Exception):
@@ -255,9 +264,9 @@ class RuntimeAssertionFeedback(AssertionFeedback):
         # Handle the number of contexts
         elif not contexts:
             # TODO: Check if this is working correctly; might be wrapping in output weirdly
-            assertion = self.report.format.output(f"{left.value} "
+            assertion = self.report.format.output(f"{_display(left.value)} "
                                                   f"{self._inverse_operator} "
-                                                  f"{right.value}")
+                                                  f"{_display(right.value)}")
         elif len(contexts) == 1:
             # If the expected_verb is a tuple, the right side's value is used
             #   to determine which of the two possible messages should be used.
